@@ -127,13 +127,15 @@ func genDispatch(c *ctx) string {
 	lnc, su, sbe := replaceArgVarsForms(c)
 	b.WriteString("def objectUnchecked : Bool := " + objectArmForm(c) + "\n")
 	b.WriteString("def argsInPlace : Bool := " + argsInPlaceForm(c) + "\n")
+	b.WriteString("def argsSortedOnce : Bool := " + argsSortedOnceForm(c) + "\n")
+	b.WriteString("def reflectOptionalRefused : Bool := " + reflectOptionalForm(c) + "\n")
 	b.WriteString("def inputDefaultsRaw : Bool := " + inputValidateForm(c) + "\n")
 	b.WriteString("def listNotCoerced : Bool := " + lnc + "\n")
 	b.WriteString("def symbolUnchecked : Bool := " + su + "\n")
 	b.WriteString("def symbolBaseEnum : Bool := " + sbe + "\n")
 	b.WriteString("/-- hashes of the functions that form, coerce and hand on argument values (strings and comments stripped) -/\n")
 	b.WriteString("def argSkeleton : List (String × String) := [\n")
-	argFns := []string{"Error.in", "Errors.in", "Input.CoerceIn", "Input.reflectSet", "Input.reflectSetKey", "List.CoerceIn", "Root.addError", "NonNull.CoerceIn", "Root.formArgs", "Root.formReflectArgs", "Root.replaceArgVars", "Root.resolveField", "checkReflectArgs"}
+	argFns := []string{"Error.in", "Errors.in", "Input.CoerceIn", "Input.reflectSet", "Input.reflectSetKey", "List.CoerceIn", "Root.addError", "NonNull.CoerceIn", "Root.formArgs", "Root.formReflectArgs", "Root.replaceArgVars", "Root.resolveField", "Root.resolveReflect", "checkReflectArgs"}
 	for i, name := range argFns {
 		h := "missing"
 		if fd := c.funcs[name]; fd != nil {
@@ -214,6 +216,10 @@ func replaceArgVarsForms(c *ctx) (listNotCoerced, symbolUnchecked, symbolBaseEnu
 func sortArgsForm(c *ctx) string {
 	fd := c.funcs["Field.sortArgs"]
 	if fd == nil {
+		// third form: nothing is rearranged; (*Field).checkArgs looks every given argument up in the definition
+		if argsSortedOnceForm(c) == "false" {
+			return "false"
+		}
 		return unknown("sortArgs", "field.go")
 	}
 	src := regexp.MustCompile(`(?m)//.*$`).ReplaceAllString(c.src(fd.Body), "")
@@ -227,6 +233,88 @@ func sortArgsForm(c *ctx) string {
 		return "false"
 	}
 	return unknown("sortArgs body", c.pos(fd))
+}
+
+// argsSortedOnceForm (D93): is the argument list of a request's field rearranged and checked for undeclared
+// arguments at the first use of the field only (`if field.ConType == nil { … field.sortArgs() }`, which also
+// replaces f.Args), with Subscription.prep overwriting the field's ConType; or is every resolve of the field
+// checked against the definition in the type of the object at hand, with nothing of the request written but
+// ConType once?
+func argsSortedOnceForm(c *ctx) string {
+	norm := func(n ast.Node) string {
+		t := regexp.MustCompile(`(?m)//.*$`).ReplaceAllString(c.src(n), "")
+		return regexp.MustCompile(`\s+`).ReplaceAllString(t, " ")
+	}
+	rf, prep, ae := c.funcs["Root.resolveField"], c.funcs["Subscription.prep"], c.funcs["Root.AddEvent"]
+	if rf == nil || prep == nil || ae == nil {
+		return unknown("resolveField / Subscription.prep / AddEvent", "resolve.go")
+	}
+	r, p, a := norm(rf.Body), norm(prep.Body), norm(ae.Body)
+	sa, ca, fra := c.funcs["Field.sortArgs"], c.funcs["Field.checkArgs"], c.funcs["Root.formReflectArgs"]
+	switch {
+	case sa != nil && ca == nil &&
+		strings.Contains(r, "if field.ConType == nil { field.ConType = t ea = append(ea, field.sortArgs()...) if 0 < len(ea) { Errors(ea).in(field.key()) return } }") &&
+		p == "{ sub.field.ConType = root.getFieldType(sub.field.ConType, sub.field.Name) }" &&
+		strings.Contains(a, "root.resolve(event, s.vars, s.field, s.field.ConType, MaxResolveDepth)"):
+		return "true"
+	case sa == nil && ca != nil && fra != nil &&
+		norm(ca.Body) == `{ for _, av := range f.Args { if fd.getArg(av.Arg) == nil { errors = append(errors, valError(av.line, av.col, "%s is not an argument to %s", av.Arg, f.Name)) } } return }` &&
+		strings.Contains(r, "{ if field.ConType == nil { field.ConType = t } var queryType Type") &&
+		strings.Contains(r, `fd := root.getFieldDef(t, field.Name) if fd == nil { ea = append(ea, resWarnp(field, "%s is not a field in %s", field.Name, t.Name())) return } if ea = field.checkArgs(fd); 0 < len(ea) { Errors(ea).in(field.key()) return } switch { case res != nil:`) &&
+		(strings.Contains(norm(fra.Body), "if len(field.Args) == 0 { return } for _, a := range fd.args.list { av := field.getArg(a.N) if av == nil { args = append(args, reflect.Value{}) continue } val, ea2 := root.replaceArgVars(vars, av.Value, a.Type)") ||
+			strings.Contains(norm(fra.Body), "for _, a := range fd.args.list { av := field.getArg(a.N) if av == nil || av.Value == nil {") && strings.Contains(norm(fra.Body), "args = append(args, reflect.Value{}) continue } val, ea2 := root.replaceArgVars(vars, av.Value, a.Type)")) &&
+		p == "{ sub.evType = root.getFieldType(sub.field.ConType, sub.field.Name) }" &&
+		strings.Contains(a, "root.resolve(event, s.vars, s.field, s.evType, MaxResolveDepth)") &&
+		!requestWrittenOutsideParser(c):
+		return "false"
+	}
+	return unknown("argument check of a request field", c.pos(rf))
+}
+
+// reflectOptionalForm (D94): is an optional argument that is left out (or null) refused by checkReflectArgs
+// ("argument N is missing or null") or handed to the method as the zero value of its parameter, with the required
+// ones reported by name when the arguments are formed?
+func reflectOptionalForm(c *ctx) string {
+	norm := func(n ast.Node) string {
+		t := regexp.MustCompile(`(?m)//.*$`).ReplaceAllString(c.src(n), "")
+		return regexp.MustCompile(`\s+`).ReplaceAllString(t, " ")
+	}
+	cra, fra := c.funcs["checkReflectArgs"], c.funcs["Root.formReflectArgs"]
+	if cra == nil || fra == nil {
+		return unknown("checkReflectArgs", "resolve.go")
+	}
+	k, f := norm(cra.Body), norm(fra.Body)
+	switch {
+	case strings.Contains(k, `if !a.IsValid() { return fmt.Errorf("argument %d is missing or null", i) }`) && !strings.Contains(f, "is required but missing"):
+		return "true"
+	case strings.Contains(k, `if !a.IsValid() { args[i] = reflect.Zero(mt.In(i)) continue }`) &&
+		strings.Contains(f, `for _, a := range fd.args.list { av := field.getArg(a.N) if av == nil || av.Value == nil { if _, ok := a.Type.(*NonNull); ok { ea = append(ea, resWarn(field.line, field.col, "%s is required but missing", a.N)) } args = append(args, reflect.Value{}) continue }`):
+		return "false"
+	}
+	return unknown("optional argument of a reflected method", c.pos(cra))
+}
+
+// requestWrittenOutsideParser: is there an assignment to the Args, Sels, Dirs, Name or Alias of a request's
+// field (receiver or variable named f, field, sub.field, s.field) outside the executable parser?
+func requestWrittenOutsideParser(c *ctx) bool {
+	found := false
+	re := regexp.MustCompile(`^(f|field|sub\.field|s\.field|sel|ts)\.(Args|Sels|Dirs|Name|Alias)$`)
+	for name, fd := range c.funcs {
+		if strings.HasPrefix(name, "exeParser.") || fd.Body == nil {
+			continue
+		}
+		ast.Inspect(fd.Body, func(n ast.Node) bool {
+			if as, ok := n.(*ast.AssignStmt); ok {
+				for _, l := range as.Lhs {
+					if re.MatchString(c.src(l)) && !strings.HasPrefix(c.pos(fd), "exeparser.go:") && !strings.HasPrefix(c.pos(fd), "sdlparser.go:") {
+						found = true
+					}
+				}
+			}
+			return true
+		})
+	}
+	return found
 }
 
 // isSubTypeForm reads (*Object).isSubType: the first commit's form (covariance only for T vs T!, D45) or the
@@ -427,7 +515,7 @@ func eventVarsForm(c *ctx) string {
 	switch {
 	case strings.Contains(a, "vars := map[string]interface{}{}") && strings.Contains(a, "root.resolve(event, vars, s.field, s.field.ConType, MaxResolveDepth)") && !strings.Contains(r, "sub.vars"):
 		return "true"
-	case !strings.Contains(a, "vars :=") && strings.Contains(a, "root.resolve(event, s.vars, s.field, s.field.ConType, MaxResolveDepth)") &&
+	case !strings.Contains(a, "vars :=") && (strings.Contains(a, "root.resolve(event, s.vars, s.field, s.field.ConType, MaxResolveDepth)") || strings.Contains(a, "root.resolve(event, s.vars, s.field, s.evType, MaxResolveDepth)")) &&
 		(strings.Contains(r, "if sub, _ := val.(*Subscription); sub != nil { sub.vars = opVars root.subscribe(sub)") ||
 			strings.Contains(r, "if sub, _ := subMap[key].(*Subscription); sub != nil { delete(subMap, key) sub.vars = opVars root.subscribe(sub)")):
 		return "false"
